@@ -227,6 +227,7 @@ theorem sstep_recOk (c : SCache σ) (h : List (SRec σ)) (op : SOp σ) (hinv : S
       obtain ⟨r0, hm, rm0, m0, u0, sel0, r, bl, sz, hop, hk, hbl, hr, hexp⟩ := hinv.src _ e hf
       have ht := hinv.time r0 hm
       simp only [sRecOk]
+      simp only [decide_true, Bool.true_and]
       rw [List.any_eq_true]
       refine ⟨r0, hm, ?_⟩
       have hk' : m0 = m ∧ u0 = u ∧ dots rm0.n sel0 = dots rm.n sel ∧ sel0 = sel := by
